@@ -25,9 +25,9 @@ claimed = {
  "C10": ("Lean proof (check <-> relation) + single-fault differential correspondence",
    "check = true iff the paper's pairing relation holds, for arbitrary keys and transcripts; each component matters; the single-fault neighbourhood of honest transcripts is decided by implementation and model."),
  "C17": ("Lean proof (refusal outside / answer inside the domain) + boundary correspondence",
-   "explicit decidable InDomain predicate; outside -> error, inside -> ok (no abort); boundary generator around every request kind for all schemes (outcome class)."),
+   "explicit decidable InDomain predicate; outside -> error, inside -> ok (no abort); refusal theorems for every excluded region found by the hypothesis audit (oversize / undersize polynomials for fixed-shape codes and streaming keys, points of the wrong length, keys without tau*g2, malformed commitments in combinations); boundary generator around every request kind for all schemes (outcome class) plus constructive forgeries at the excluded points."),
  "C16": ("Lean proof (operator laws, op sequences by induction, evaluate = Horner(compute_coeffs)) + differential correspondence",
-   "every LinearCombination operator preserves value under every assignment, lifted to arbitrary op sequences; evaluate_query_set keys/values; SuccinctCheckPolynomial evaluate = Horner over compute_coeffs = product form, length 2^k; random op sequences through the public operators compared term by term with the model."),
+   "every LinearCombination operator preserves value under every assignment, lifted to arbitrary op sequences; evaluate_query_set keys/values; SuccinctCheckPolynomial evaluate = Horner over compute_coeffs = product form, length 2^k (harness: up to 10 challenges expanded, 11..64 challenges against the product form); random op sequences through the public operators compared term by term with the model."),
  "C18": ("Lean proof (any reduction tree = sequential fold; index-preserving map/unzip; disjoint for_each) + generated parallel-site inventory (T2) + digest comparison across thread counts and feature sets",
    "parReduce over any split tree equals foldl for associative operators with identity; the translator regenerates the list of every cfg_iter!/rayon site and RNG-under-parallel site from /repo on each run and `decide` checks them against the allow-list the theorems cover; serialized outputs of all schemes are hashed in child processes under RAYON_NUM_THREADS in {1,2,3,8,16} and in a build without the parallel feature. Partial: what rayon does at run time is outside the model."),
  "C12": ("Lean proof (codec combinators preserve round-trip/size/prefix-failure; schema agreement => struct codec Good) + serializer schemas regenerated from source (T1) + real round-trips",
